@@ -559,20 +559,49 @@ func checkC03(c *Ctx) {
 			for _, cl := range callsTo(DK, false, "core.PeekKey") {
 				peek = cl.(*ssa.Call)
 			}
-			var emptyV ssa.Value
-			for _, ref := range referrersOf(peek) {
-				if ex, ok := ref.(*ssa.Extract); ok && ex.Index == 1 {
-					emptyV = ex
+			// the `empty` result of any PeekKey call of the loop, also merged by the phi of a for-with-post loop
+			emptyVs := map[ssa.Value]bool{}
+			for _, cl := range callsTo(DK, false, "core.PeekKey") {
+				for _, ref := range referrersOf(cl.(*ssa.Call)) {
+					if ex, ok := ref.(*ssa.Extract); ok && ex.Index == 1 {
+						emptyVs[ex] = true
+					}
 				}
 			}
+			eachInstr(DK, func(in ssa.Instruction) {
+				ph, ok := in.(*ssa.Phi)
+				if !ok || len(ph.Edges) == 0 {
+					return
+				}
+				for _, e := range ph.Edges {
+					if !emptyVs[e] {
+						return
+					}
+				}
+				emptyVs[ph] = true
+			})
 			var okEdge, found bool
 			for _, b := range DK.Blocks {
 				iff, ok := b.Instrs[len(b.Instrs)-1].(*ssa.If)
-				if !ok || iff.Cond != emptyV {
+				if !ok {
+					continue
+				}
+				cond, neg := iff.Cond, false
+				for {
+					if u, isU := cond.(*ssa.UnOp); isU && u.Op == token.NOT {
+						cond, neg = u.X, !neg
+						continue
+					}
+					break
+				}
+				if !emptyVs[cond] {
 					continue
 				}
 				found = true
 				nonEmpty := b.Succs[1]
+				if neg {
+					nonEmpty = b.Succs[0]
+				}
 				// path from nonEmpty to return or loop head avoiding PopKey?
 				bad := false
 				seen := map[*ssa.BasicBlock]bool{}
